@@ -417,6 +417,36 @@ func execQueueStress(c *child.Ctx, k queueCase, cj []byte) {
 	c.Count("stress_operations", int64((k.Adders+k.Readers)*k.OpsEach))
 }
 
+// execQueueHeldLock: the read lock is held for OpsEach milliseconds while Adds
+// additions are made by another goroutine.
+func execQueueHeldLock(c *child.Ctx, k queueCase, cj []byte) {
+	q := circularQueue.NewCircularQueue(k.Cap)
+	for i := 0; i < k.Cap; i++ {
+		q.Add(qmsg(i))
+	}
+	q.RLock()
+	added := make(chan struct{})
+	go func() {
+		for i := 0; i < k.Adds; i++ {
+			q.Add(qmsg(k.Cap + i))
+			tick()
+		}
+		close(added)
+	}()
+	sleepTicking(time.Duration(k.OpsEach) * time.Millisecond)
+	q.RUnlock()
+	waitOrHang(added, caseWatchdog, "additions did not complete after the read lock was released")
+	got := ids(q.GetMessages())
+	var want []int
+	for i := k.Adds; i < k.Cap+k.Adds; i++ {
+		want = append(want, i)
+	}
+	if fmt.Sprint(got) != fmt.Sprint(want) {
+		c.Violate("snapshot-wrong", fmt.Sprintf("capacity %d: %d messages were added while a reader held the read lock for %d ms; afterwards the snapshot is %v, the last %d messages are %v%s", k.Cap, k.Adds, k.OpsEach, got, k.Cap, want, alteredText()), cj)
+	}
+	c.Count("additions_while_the_read_lock_was_held", int64(k.Adds))
+}
+
 func monC18(c *child.Ctx, replay json.RawMessage) {
 	if replay != nil {
 		var k queueCase
@@ -427,6 +457,8 @@ func monC18(c *child.Ctx, replay json.RawMessage) {
 			execQueueSeq(c, k, replay)
 		case "long":
 			execQueueLong(c, k, replay)
+		case "heldlock":
+			execQueueHeldLock(c, k, replay)
 		case "stress":
 			for i := 0; i < 20 && c.NViolations() == 0; i++ {
 				execQueueStress(c, k, replay)
@@ -478,14 +510,28 @@ func monC18(c *child.Ctx, replay json.RawMessage) {
 	c.SetExhaustive(true)
 	// (2) long runs far beyond the capacity, every snapshot checked
 	longAdds := c.Pick(100000, 10000000)
-	caps := []int{1, 2, 3, 5, 8, 20}
+	caps := []int{1, 2, 3, 5, 8, 20, 16, 17, 32, 64, 100, 200}
 	for i, capN := range caps {
 		if i%c.NBatch != c.Batch {
 			continue
 		}
 		k := queueCase{Kind: "long", Cap: capN, Adds: longAdds}
+		if capN > 20 {
+			k.Adds = 6*capN + c.Pick(2000, 200000) // every snapshot is compared: keep the large capacities affordable
+		}
 		cj := c.BeginV(k)
 		execQueueLong(c, k, cj)
+		c.Eval(ref.Hash64(cj), true)
+	}
+	// (2b) a reader that holds the queue's (exported) read lock for a while - a report
+	// being rendered - while messages arrive: they wait, and none is lost
+	for si, hold := range timedStalls(c) {
+		if si%c.NBatch != c.Batch {
+			continue
+		}
+		k := queueCase{Kind: "heldlock", Cap: []int{3, 8, 20}[r.Intn(3)], Adds: r.Range(2, 6), OpsEach: int(hold.Milliseconds())}
+		cj := c.BeginV(k)
+		execQueueHeldLock(c, k, cj)
 		c.Eval(ref.Hash64(cj), true)
 	}
 	// (3) tight-loop stress
